@@ -8,8 +8,10 @@ share no node.
 """
 from __future__ import annotations
 
+import contextlib
 import copy
 import hashlib
+import io
 import json
 import os
 import subprocess
@@ -46,9 +48,11 @@ def graph_digest(g) -> str:
 def new_run(rng, tier):
     spec, src = world_m.pick_language(rng, tier, p_corelang=0.02,
                                       gen_cfg={'expr_depth': 2, 'max_types': 4, 'composite_ttc': True})
-    mcfg = {'prop': 'setup', 'guards': [], 'steps': rng.randint(3, 12), 'n_models': 1,
+    big = rng.random() < 0.2
+    mcfg = {'prop': 'setup', 'guards': [], 'steps': rng.randint(14, 26) if big else rng.randint(3, 12),
+            'n_models': 1, 'max_assets': 16 if big else 8,
             'odd_names': rng.random() < 0.3, 'p_invalid': 0.0, 'p_reuse': 0.3,
-            'w': {'add_asset': 6, 'set_defense': 2, 'remove_asset': 1, 'add_assoc': 5,
+            'w': {'add_asset': 14 if big else 6, 'set_defense': 2, 'remove_asset': 1, 'add_assoc': 5,
                   'remove_assoc': 0, 'remove_from_assoc': 0, 'add_attacker': 2,
                   'remove_attacker': 0, 'add_ep': 3, 'remove_ep': 0, 'restart': 0,
                   'foreign': 0, 'set_extras': 1, 'set_assoc_extras': 0, 'legacy': 0,
@@ -62,6 +66,13 @@ def new_run(rng, tier):
                 op = mw.gen_op(rng)
                 if op is None:
                     break
+                # defense values as floats: a value given as the int 1 is serialised "1" by
+                # a graph built from the model in memory and "1.0" after a save / load of the
+                # model; that is a matter of number formatting, not of C16
+                if op['op'] == 'set_defense':
+                    op['value'] = float(op['value'])
+                if op['op'] == 'add_asset':
+                    op['defenses'] = {k: float(v) for k, v in (op.get('defenses') or {}).items()}
                 ops.append(op)
                 mw.apply(op)
         finally:
@@ -139,6 +150,37 @@ class World(BaseWorld):
                 raise SetupRejected('generate:' + str(n))
             self.ref_digest[fmt] = d
             self.nedges = n
+        # When the assets were added in ascending id order, a .json file (insertion
+        # order), a .yml file (sorted by id) and the model in memory all list them in the
+        # same order: then all three must give the very same graph.
+        ids = [self.mw.refs[0].assets[h].id for h in self.mw.refs[0].order]
+        kids = [self.mw.refs[0].attackers[k].id for k in self.mw.refs[0].attacker_order]
+        self.same_across_formats = ids == sorted(ids) and kids == sorted(kids)
+        if self.same_across_formats:
+            self.count('oracle:C16.same')
+            if len(ids) > 10:
+                self.count('probe:more_than_ten_assets_in_id_order')
+            if self.ref_digest['json'] != self.ref_digest['yml']:
+                raise Violation('C16.same', 'the same model (assets in ascending id order) gives '
+                                            'different graphs when loaded from its .json and from '
+                                            'its .yml file')
+            o = call(self._pipeline, self.mw.lg, self.model)
+            if not o.raised and graph_digest(o.value) != self.ref_digest['json']:
+                raise Violation('C16.same', 'the model in memory and the same model loaded from its '
+                                            'file give different graphs')
+        # a second .mal path that first held another language (same path, other content)
+        self.mal2 = None
+        if self.mal is not None:
+            p2 = os.path.join(self.path('malsrc'), 'reused.mal')
+            with open(p2, 'w', encoding='utf-8') as f:
+                f.write(malprint.single_file(small_fixed_specs()[1]))
+            with contextlib.redirect_stderr(io.StringIO()):
+                call(self.LanguageGraph.from_mal_spec, p2)      # the decoy is compiled once
+            with open(self.mal, encoding='utf-8') as f:
+                real_text = f.read()
+            with open(p2, 'w', encoding='utf-8') as f:
+                f.write(real_text)                               # same path, now the real language
+            self.mal2 = p2
 
     def close(self):
         try:
@@ -158,7 +200,10 @@ class World(BaseWorld):
         spec_obj = copy.deepcopy(self.desc['spec']) if spec is None else spec
         lg = self.LanguageGraph(spec_obj)
         fac = self.LanguageClassesFactory(lg)
-        model = self.Model.load_from_file(self.files[fmt], fac)
+        lo = call(self.Model.load_from_file, self.files[fmt], fac)
+        if lo.raised:
+            return None, 'model load:' + lo.exc_name()
+        model = lo.value
         o = call(self._pipeline, lg, model)
         if o.raised:
             return None, o.exc_name()
@@ -333,7 +378,14 @@ class World(BaseWorld):
         return 'ok'
 
     def _lang_file(self, via):
-        return self.mal if via == 'wrapper_mal' else self.mar
+        if via == 'wrapper_mal':
+            # every other time the path that held another language earlier in this process
+            self._mal_toggle = not getattr(self, '_mal_toggle', False)
+            if self._mal_toggle and self.mal2 is not None:
+                self.count('probe:mal_path_that_held_another_language')
+                return self.mal2
+            return self.mal
+        return self.mar
 
     def do_wrapper(self, op):
         via = op['via']
